@@ -2,6 +2,7 @@ import RzmqModel.Model.RpqInv
 import RzmqModel.Proofs.RpqInv
 import RzmqModel.Proofs.RpqCancel
 import RzmqModel.Props.C08
+import RzmqModel.Proofs.SendTx
 /-!
 # C09 — dropping a send or recv future is safe at every await point (ready-pipe-queue level)
 
@@ -105,5 +106,75 @@ theorem inv_with_cancellation (s : RpqSt) (hw : WellFormed s) (h0 : Initial s) (
     | cancel t =>
       have := cancel_preserves_inv s t hw hi hc.1
       exact ih (s.cancel t).1 this.1 hc.2 this.2
+
+/-! ## messages handed to `send()` frame by frame (DEALER, ROUTER), with futures dropped while pending (M15) -/
+
+/-- the code as it is now: both sockets keep the frames until the last one is given and empty the transaction before
+they await the hand-over (flags re-extracted from `dealer_socket.rs` / `router_socket.rs` on every run) -/
+theorem tx_source_shape : dealerTxCfg = goodTx ∧ routerTxCfg = goodTx := by decide
+
+/-- whatever the application does — frames, last frames, dropping the pending future of a last frame, send_multipart in
+between — the peer reads only messages the application gave, each whole, in the order given (a cancelled one is there or
+is not), and no frame ever sits in the pipe without the end of its message -/
+theorem cancelled_frame_by_frame_send_is_all_or_nothing (c : TxCfg) (hc : c = dealerTxCfg ∨ c = routerTxCfg)
+    (evs : List TxEv) :
+    let s := ({} : SendTx).run c evs
+    s.pipe.Sublist s.offered ∧ s.half = [] ∧ (s.inflight = none → ∀ m ∈ s.pipe, m ∈ s.offered) := by
+  have hg : c = goodTx := by
+    rcases hc with h | h
+    · rw [h]; exact tx_source_shape.1
+    · rw [h]; exact tx_source_shape.2
+  subst hg
+  have hi := SendTx.inv_run evs {} SendTx.inv_init
+  have hfly := hi.fly
+  refine ⟨?_, hi.half_nil, ?_⟩
+  · cases hfl : (({} : SendTx).run goodTx evs).inflight with
+    | none => simpa [hfl] using hfly
+    | some m =>
+      simp only [hfl] at hfly
+      obtain ⟨_, o, ho, hs⟩ := hfly
+      rw [ho]; exact hs.trans (List.sublist_append_left o [m])
+  · intro hn m hm
+    simp only [hn] at hfly
+    exact hfly.subset hm
+
+/-- … and the socket stays usable: whenever the application is not in the middle of a message the transaction is idle
+(the next frame starts a new message, send_multipart does not wait), however many futures were dropped before -/
+theorem cancelled_last_frame_leaves_the_socket_usable (c : TxCfg) (hc : c = dealerTxCfg ∨ c = routerTxCfg)
+    (evs : List TxEv) :
+    let s := ({} : SendTx).run c evs
+    s.stuck = 0 ∧ (s.cur = [] → s.busy = false) ∧ s.buf = s.cur := by
+  have hg : c = goodTx := by
+    rcases hc with h | h
+    · rw [h]; exact tx_source_shape.1
+    · rw [h]; exact tx_source_shape.2
+  subst hg
+  have hi := SendTx.inv_run evs {} SendTx.inv_init
+  refine ⟨hi.stuck_zero, ?_, hi.buf_cur⟩
+  intro hcur
+  cases hb : (({} : SendTx).run goodTx evs).busy with
+  | false => rfl
+  | true => exact absurd hcur (hi.busy_cur hb)
+
+/-- the hypotheses are met by a history that does cancel: the cancelled message [1,2] is not delivered, [3] and [4,5] are -/
+example :
+    let s := ({} : SendTx).run goodTx [.frame 1, .last 2, .cancel, .last 3, .complete, .whole [4, 5]]
+    s.pipe = [[3], [4, 5]] ∧ s.offered = [[1, 2], [3], [4, 5]] ∧ s.busy = false := by decide
+
+/-- why the order matters (the shape of a seeded change): a transaction that is emptied only AFTER the await keeps the
+frames of a cancelled message, glues them to the next one and makes send_multipart wait for ever -/
+theorem keeping_the_transaction_across_the_await_breaks_it :
+    let c : TxCfg := { buffersUntilLast := true, closesBeforeAwait := false }
+    (({} : SendTx).run c [.frame 1, .last 2, .cancel, .last 3, .complete]).pipe = [[1, 2, 3]]
+    ∧ (({} : SendTx).run c [.frame 1, .last 2, .cancel, .whole [9]]).stuck = 1 := by decide
+
+/-- why the frames must wait in the socket (ROUTER before its repair): frames handed to the pipe one by one leave half a
+message there when the future of a later frame is dropped — the next message is read glued to it, or, with the permit
+still held, send_multipart waits for ever -/
+theorem handing_frames_over_one_by_one_breaks_it :
+    (({} : SendTx).run { buffersUntilLast := false, closesBeforeAwait := true } [.frame 1, .last 2, .cancel, .whole [9]]).pipe
+      = [[1, 9]]
+    ∧ (({} : SendTx).run { buffersUntilLast := false, closesBeforeAwait := false } [.frame 1, .last 2, .cancel, .whole [9]]).stuck
+      = 1 := by decide
 
 end Rzmq.C09
